@@ -985,6 +985,11 @@ impl<'a, 'b> Gen<'a, 'b> {
                 return s;
             }
         }
+        if self.p.uninit_decl && self.p.elementwise_first && self.p.call_bias > 0 && depth > 0 && self.t.chance(14) {
+            if let Some(s) = self.delayed_array_split() {
+                return s;
+            }
+        }
         if self.p.self_update_bias > 0 && self.p.call_bias > 0 && depth > 0 && self.t.chance(16) {
             if let Some(s) = self.accumulate_while() {
                 return s;
@@ -1259,6 +1264,100 @@ impl<'a, 'b> Gen<'a, 'b> {
         let body = Stmt::Block { id: self.ids.next(), stmts: vec![w1, rd, w2] };
         let for_stmt = Stmt::For { id: self.ids.next(), init: Box::new(init), cond, step: Box::new(step), body: Box::new(body) };
         Some(Stmt::Block { id: self.ids.next(), stmts: vec![decl, for_stmt] })
+    }
+
+    /// `{ var zb[2]; var zt = <data>; zb[0] = zt op e; if (c) { zb[1] = lit; x = zb[0]; } }`: the first
+    /// element write of an array waits behind a statement of its own block that needs passes of its own,
+    /// the second write and the read sit in a later basic block (a branch, or the body of a loop).
+    fn delayed_array_split(&mut self) -> Option<Stmt> {
+        let scalars: Vec<VarInfo> =
+            self.local_targets().into_iter().filter(|v| v.ty == Ty::Var && self.assigned.contains(&v.key)).collect();
+        if scalars.is_empty() || self.control_ctx {
+            return None;
+        }
+        let x = scalars[self.t.below(scalars.len())].clone();
+        let zb = self.fresh_name("zb");
+        let zt = self.fresh_name("zt");
+        let (hi, lo) = if self.t.chance(200) { (0u64, 1u64) } else { (1, 0) };
+        let two = self.small_literal(2);
+        let decl = Stmt::Decl {
+            id: self.ids.next(),
+            kind: DeclKind::Var,
+            syms: vec![DeclSym { id: self.ids.next(), sub_id: self.ids.next(), name: zb.clone(), dims: vec![two], init: None }],
+            init_op: AssignOp::Var,
+        };
+        let (e0, d0) = self.expr_tracked(2);
+        let tdecl = Stmt::Decl {
+            id: self.ids.next(),
+            kind: DeclKind::Var,
+            syms: vec![DeclSym { id: self.ids.next(), sub_id: self.ids.next(), name: zt.clone(), dims: vec![], init: Some(e0) }],
+            init_op: AssignOp::Var,
+        };
+        let (e1, d1) = self.expr_tracked(1);
+        let op = if self.t.chance(170) { Op::Mul } else { self.infix_op() };
+        let tread = Expr::Var { id: self.ids.next(), name: zt.clone(), access: vec![] };
+        let rhs1 = Expr::Infix { id: self.ids.next(), op, l: Box::new(tread), r: Box::new(e1) };
+        let elem = |g: &mut Self, k: u64| Expr::Var { id: g.ids.next(), name: zb.clone(), access: vec![Access::Index(g.small_literal(k))] };
+        let w1 = Stmt::Assign { id: self.ids.next(), lhs: elem(self, hi), op: AssignOp::Var, rhs: rhs1, reversed: false };
+        let in_loop = self.t.chance(90);
+        let cond = if in_loop { None } else { Some(self.cond()) };
+        if in_loop {
+            self.in_loop += 1;
+        }
+        let rhs2 = if self.t.chance(190) { self.literal() } else { self.expr(0) };
+        let d2 = false;
+        let w2 = Stmt::Assign { id: self.ids.next(), lhs: elem(self, lo), op: AssignOp::Var, rhs: rhs2, reversed: false };
+        let read_elem = elem(self, hi);
+        let (rhs, d3) = if self.t.chance(150) {
+            (read_elem, false)
+        } else {
+            let op = self.infix_op();
+            let (e, d) = self.expr_tracked(1);
+            (Expr::Infix { id: self.ids.next(), op, l: Box::new(read_elem), r: Box::new(e) }, d)
+        };
+        if in_loop {
+            self.in_loop -= 1;
+        }
+        let lhs = Expr::Var { id: self.ids.next(), name: x.name.clone(), access: vec![] };
+        let rd = Stmt::Assign { id: self.ids.next(), lhs, op: AssignOp::Var, rhs, reversed: false };
+        // whatever the expressions read, the array and the scalar are treated as depending on data
+        let _ = (d0, d1, d2, d3);
+        self.tainted.insert(x.key);
+        let read_after = self.t.chance(70);
+        let mut inner = vec![w2];
+        let mut tail = vec![];
+        if read_after {
+            tail.push(rd);
+        } else {
+            inner.push(rd);
+        }
+        let body = Stmt::Block { id: self.ids.next(), stmts: inner };
+        let second = match cond {
+            Some(cond) => Stmt::If { id: self.ids.next(), cond, then: Box::new(body), els: None },
+            None => {
+                let i = self.fresh_name("i");
+                let bound = 1 + self.t.below(2) as u64;
+                let zero = self.small_literal(0);
+                let init = Stmt::Decl {
+                    id: self.ids.next(),
+                    kind: DeclKind::Var,
+                    syms: vec![DeclSym { id: self.ids.next(), sub_id: self.ids.next(), name: i.clone(), dims: vec![], init: Some(zero) }],
+                    init_op: AssignOp::Var,
+                };
+                let b = self.small_literal(bound);
+                let c = Expr::Infix {
+                    id: self.ids.next(),
+                    op: Op::Lt,
+                    l: Box::new(Expr::Var { id: self.ids.next(), name: i.clone(), access: vec![] }),
+                    r: Box::new(b),
+                };
+                let step = Stmt::IncDec { id: self.ids.next(), name: i.clone(), access: vec![], inc: true };
+                Stmt::For { id: self.ids.next(), init: Box::new(init), cond: c, step: Box::new(step), body: Box::new(body) }
+            }
+        };
+        let mut stmts = vec![decl, tdecl, w1, second];
+        stmts.extend(tail);
+        Some(Stmt::Block { id: self.ids.next(), stmts })
     }
 
     /// `{ var w = 0; while (w < B) { w++; var nx = acc op <data>; acc = nx; } }`: the counter is stepped
